@@ -292,3 +292,21 @@ Theorem C07_callps_retps_transparent_R_block :
       /\ (forall a, RAMB <= a -> (a < S \/ S + 4 <= a) -> (a < P \/ P + 64 <= a) -> ramb m2 a = ramb m a).
 Proof. exact callps_retps_transparent_R. Qed.
 Print Assumptions C07_callps_retps_transparent_R_block.
+
+(* the hypotheses of the R-block theorems are satisfiable: a concrete machine (vector 1 -> handler block at 0x748000 with
+   R set and priority level 15, interrupted process's block at 0x740000, interrupt stack at 0x741000) meets all of them *)
+Example C07_R_block_premises_satisfiable :
+  let m := ex_m in let v := 1 in
+  bus_wf (mbus m) /\ 0 <= v /\ in_rom_w (140 + 4 * v)
+  /\ (let N := romw m (140 + 4 * v) in
+      let P := R m R_PCBP in
+      let S := R m R_ISP in
+      pcb_in_ram N /\ in_ram_w (N + 64) /\ ldw m (N + 64) = 0
+      /\ pcb_in_ram P /\ in_ram_w (P + 64) /\ ldw m (P + 64) = 0
+      /\ in_ram_w S /\ S + 4 < 4294967296
+      /\ (P + 68 <= N \/ N + 68 <= P) /\ (S + 4 <= P \/ P + 68 <= S) /\ (S + 4 <= N \/ N + 68 <= S)
+      /\ (let H := ldw m N in
+          0 <= H /\ Z.testbit H 8 = true /\ Z.testbit H 7 = false /\ Z.testbit H 11 = false /\ Z.testbit H 12 = false))
+  /\ Z.testbit (PSW m) 7 = false
+  /\ (forall i, 0 <= i <= 15 -> 0 <= R m i < 4294967296).
+Proof. exact R_block_premises. Qed.
